@@ -1,11 +1,25 @@
 import Rtcm.Model.Msm
 import Rtcm.Gen.Messages
+import Rtcm.Props.C18
+import Rtcm.Proofs.MsmLaws
+import Mathlib.Data.List.Dedup
 /-!
 # C10  MSM satellite, signal and cell masks follow the standard for any input order
-(theorems under construction)
+
+Model: `Msm.masks` (the mask computation of `msm_data_seg_frag!::encode`), `Msm.encode`, `Msm.decode`,
+`Msm.maskIds` (`mask_to_id_vec_*`), `Msm.cellIds` (`cell_mask_id_vec`), `Msm.popcount` (`mask_len_*`).
+All theorems are for an arbitrary signal table `tbl` with `C18.tableOk tbl = true` (identifiers distinct,
+descriptors distinct, identifiers within 2..=32); `C18.tables_ok` proves this for the seven regenerated
+constellation tables, `for_all_constellations` below instantiates the headline statement for them.
+
+Vocabulary (definitions in `Rtcm/Proofs/MsmLaws.lean`, unfolded here by `pre_iff`, `sigIdSet_def`, `rankIn_def`):
+* `Pre tbl sats sigs` : the encoder's preconditions (see `pre_iff`);
+* `sigIdSet tbl sigs` : `G`, the distinct recognised signal identifiers used by the signal rows, ascending;
+* `rankIn ids x`      : number of members of `ids` below `x`;
+* satellites `S` are `sats.map (·.id)` (pairwise distinct under `Pre`, so `|S| = sats.length`).
 -/
 namespace Rtcm.C10
-open Rtcm.Msm Rtcm.Schema
+open Rtcm.Msm Rtcm.Schema Rtcm.MsmLaws
 
 /-- the all-empty data segment has no masks to compute -/
 theorem empty_segment (tbl : SigTable) : masks tbl [] [] = .ok none := by
@@ -24,5 +38,554 @@ theorem first_sat_invalid (tbl : SigTable) (s : SatRow) (rest : List SatRow) (si
     | nil => rfl
     | cons x xs ih => simpa [List.foldl_cons, satMaskStep] using ih
   simp [masks, List.foldl_cons, hstep, hfold]
+
+/-! ## Vocabulary, spelled out -/
+
+theorem sigIdSet_def (tbl : SigTable) (sigs : List SigRow) :
+    sigIdSet tbl sigs =
+      (List.range 33).filter fun i => sigs.any fun g => Sig.toId tbl g.band g.attr == some i := rfl
+
+theorem rankIn_def (ids : List Nat) (x : Nat) : rankIn ids x = (ids.filter (· < x)).length := rfl
+
+/-- `G` is exactly the set of identifiers of the signals used, without repetition, ascending -/
+theorem sigIdSet_spec (tbl : SigTable) (hT : C18.tableOk tbl = true) (sigs : List SigRow) :
+    (∀ i, i ∈ sigIdSet tbl sigs ↔ ∃ g ∈ sigs, Sig.toId tbl g.band g.attr = some i) ∧
+    (sigIdSet tbl sigs).Pairwise (· < ·) ∧ (sigIdSet tbl sigs).Nodup := by
+  refine ⟨fun i => mem_sigIdSet tbl (tableOk_of_bool tbl hT) sigs i, ?_, sigIdSet_nodup tbl sigs⟩
+  exact List.Pairwise.filter _ List.pairwise_lt_range
+
+/-- `|G|` is the number of distinct identifiers among the signal rows -/
+theorem sigIdSet_length (tbl : SigTable) (hT : C18.tableOk tbl = true) (sigs : List SigRow) :
+    (sigIdSet tbl sigs).length =
+      ((sigs.filterMap fun g => Sig.toId tbl g.band g.attr).dedup).length := by
+  apply List.Perm.length_eq
+  rw [List.perm_ext_iff_of_nodup (sigIdSet_nodup tbl sigs) (List.nodup_dedup _)]
+  intro i
+  rw [mem_sigIdSet tbl (tableOk_of_bool tbl hT), List.mem_dedup, List.mem_filterMap]
+
+/-- the precondition of the property: satellites `S` within 1..=64 and pairwise distinct; every signal row
+has its satellite within 1..=64 and a recognised signal; the cells `(sat, band, attr)` pairwise distinct;
+every satellite used by some cell and every cell's satellite listed; at least one satellite;
+`|S| * |G| ≤ 64`. -/
+theorem pre_iff (tbl : SigTable) (sats : List SatRow) (sigs : List SigRow) :
+    Pre tbl sats sigs ↔
+      (∀ r ∈ sats, 1 ≤ r.id ∧ r.id ≤ 64) ∧
+      (sats.map (·.id)).Nodup ∧
+      (∀ g ∈ sigs, 1 ≤ g.sat ∧ g.sat ≤ 64) ∧
+      (∀ g ∈ sigs, ∃ i, Sig.toId tbl g.band g.attr = some i) ∧
+      (sigs.map fun g => (g.sat, g.band, g.attr)).Nodup ∧
+      (∀ r ∈ sats, ∃ g ∈ sigs, g.sat = r.id) ∧
+      (∀ g ∈ sigs, ∃ r ∈ sats, r.id = g.sat) ∧
+      sats ≠ [] ∧
+      sats.length * (sigIdSet tbl sigs).length ≤ 64 :=
+  ⟨fun P => ⟨P.1, P.2, P.3, P.4, P.5, P.6, P.7, P.8, P.9⟩,
+   fun ⟨h1, h2, h3, h4, h5, h6, h7, h8, h9⟩ => ⟨h1, h2, h3, h4, h5, h6, h7, h8, h9⟩⟩
+
+/-! ## 1. The masks under the preconditions -/
+
+/-- what the property says about the four values `encode` writes -/
+structure MaskSpec (tbl : SigTable) (sats : List SatRow) (sigs : List SigRow)
+    (satMask sigMask cellMask cellLen : Nat) : Prop where
+  /-- satellite mask: exactly bit `s` (MSB = 1) set for `s ∈ S` -/
+  sat_bits : ∀ s, 1 ≤ s → s ≤ 64 → (satMask.testBit (64 - s) = true ↔ ∃ r ∈ sats, r.id = s)
+  sat_lt : satMask < 2 ^ 64
+  /-- signal mask: exactly the bits of the signals' identifiers -/
+  sig_bits : ∀ i, 1 ≤ i → i ≤ 32 →
+    (sigMask.testBit (32 - i) = true ↔ ∃ g ∈ sigs, Sig.toId tbl g.band g.attr = some i)
+  sig_lt : sigMask < 2 ^ 32
+  /-- the number of mask cells is `|S| * |G|`, as counted from the masks, within 1..=64 -/
+  popcount_sat : popcount 64 satMask = sats.length
+  popcount_sig : popcount 32 sigMask = (sigIdSet tbl sigs).length
+  cellLen_eq : cellLen = sats.length * (sigIdSet tbl sigs).length
+  cellLen_pos : 1 ≤ cellLen
+  cellLen_le : cellLen ≤ 64
+  cell_lt : cellMask < 2 ^ cellLen
+  /-- the row index the encoder computes from the satellite mask is the rank of the satellite in `S` -/
+  sat_rank : ∀ r ∈ sats, rankOf 64 satMask r.id = rankIn (sats.map (·.id)) r.id ∧
+    rankIn (sats.map (·.id)) r.id < sats.length
+  /-- the column index the encoder computes from the signal mask is the rank of the identifier in `G` -/
+  sig_rank : ∀ i ∈ sigIdSet tbl sigs, rankOf 32 sigMask i = rankIn (sigIdSet tbl sigs) i ∧
+    rankIn (sigIdSet tbl sigs) i < (sigIdSet tbl sigs).length
+  /-- cell mask: row-major `S × G` incidence of the cells, MSB first -/
+  cell_bits : ∀ s i, (∃ r ∈ sats, r.id = s) → i ∈ sigIdSet tbl sigs →
+    (cellMask.testBit (cellLen - 1 -
+        (rankIn (sats.map (·.id)) s * (sigIdSet tbl sigs).length + rankIn (sigIdSet tbl sigs) i)) = true ↔
+      ∃ g ∈ sigs, g.sat = s ∧ Sig.toId tbl g.band g.attr = some i)
+  /-- every listed cell's index is below `cellLen` (`cell_cont_len - 1 - cell_indx` does not underflow) -/
+  cell_idx_lt : ∀ g ∈ sigs,
+    rankOf 64 satMask g.sat * popcount 32 sigMask + rankOf 32 sigMask (sigIdOf tbl g) < cellLen
+
+theorem spec_of_pre (tbl : SigTable) (hT : C18.tableOk tbl = true) (sats : List SatRow) (sigs : List SigRow)
+    (P : Pre tbl sats sigs) :
+    MaskSpec tbl sats sigs (satMaskOf sats) (sigMaskOf tbl sigs) (cellMaskOf tbl sats sigs)
+      ((sigIdSet tbl sigs).length * sats.length) := by
+  have hT' := tableOk_of_bool tbl hT
+  have G := P.good
+  have hlen : (sigIdSet tbl sigs).length * sats.length = sats.length * (sigIdSet tbl sigs).length :=
+    Nat.mul_comm _ _
+  refine
+    { sat_bits := fun s h1 h2 => satMaskOf_bit_id sats P.sat_range s h1 h2
+      sat_lt := satMaskOf_lt sats P.sat_range
+      sig_bits := fun i h1 h2 => sigMaskOf_bit_id tbl hT' sigs P.sig_known i h1 h2
+      sig_lt := sigMaskOf_lt tbl hT' sigs P.sig_known
+      popcount_sat := G.popcount_sat hT'
+      popcount_sig := G.popcount_sig hT'
+      cellLen_eq := hlen
+      cellLen_pos := G.cellLen_pos hT'
+      cellLen_le := by rw [hlen]; exact P.cells_le
+      cell_lt := G.cellMaskOf_lt hT'
+      sat_rank := fun r hr => ?_
+      sig_rank := fun i hi => ?_
+      cell_bits := fun s i hs hi => ?_
+      cell_idx_lt := fun g hg => ?_ }
+  · have := (P.sat_range r hr)
+    refine ⟨G.sat_rank hT' r.id (by omega), ?_⟩
+    have h := rankIn_lt_length (sats.map (·.id)) r.id (List.mem_map.mpr ⟨r, hr, rfl⟩)
+    rwa [List.length_map] at h
+  · have := sigIdSet_range tbl hT' sigs i hi
+    exact ⟨G.sig_rank hT' i (by omega), rankIn_lt_length _ _ hi⟩
+  · rw [hlen]
+    obtain ⟨r, hr, rfl⟩ := hs
+    exact G.cell_incidence hT' r.id i (List.mem_map.mpr ⟨r, hr, rfl⟩) hi
+  · rw [G.popcount_sig hT', (G.cell_idx hT' g hg).1, hlen]
+    exact (G.cell_idx hT' g hg).2
+
+/-- **masks_ok**: under the preconditions the encoder computes masks, and they satisfy `MaskSpec` -/
+theorem masks_ok (tbl : SigTable) (hT : C18.tableOk tbl = true) (sats : List SatRow) (sigs : List SigRow)
+    (P : Pre tbl sats sigs) :
+    ∃ satMask sigMask cellMask cellLen,
+      masks tbl sats sigs = .ok (some (satMask, sigMask, cellMask, cellLen)) ∧
+      MaskSpec tbl sats sigs satMask sigMask cellMask cellLen :=
+  ⟨_, _, _, _, masks_pre tbl (tableOk_of_bool tbl hT) sats sigs P, spec_of_pre tbl hT sats sigs P⟩
+
+/-- the same, for whatever values `masks` returned -/
+theorem masks_spec (tbl : SigTable) (hT : C18.tableOk tbl = true) (sats : List SatRow) (sigs : List SigRow)
+    (P : Pre tbl sats sigs) (satMask sigMask cellMask cellLen : Nat)
+    (h : masks tbl sats sigs = .ok (some (satMask, sigMask, cellMask, cellLen))) :
+    MaskSpec tbl sats sigs satMask sigMask cellMask cellLen := by
+  rw [masks_pre tbl (tableOk_of_bool tbl hT) sats sigs P] at h
+  injection h with h; injection h with h
+  simp only [Prod.mk.injEq] at h
+  obtain ⟨rfl, rfl, rfl, rfl⟩ := h
+  exact spec_of_pre tbl hT sats sigs P
+
+/-- satellite mask: exactly bit `s` (counting the most significant bit of the 64 as 1) is set for `s ∈ S` -/
+theorem sat_mask_bits (tbl : SigTable) (hT : C18.tableOk tbl = true) (sats : List SatRow) (sigs : List SigRow)
+    (P : Pre tbl sats sigs) (satMask sigMask cellMask cellLen : Nat)
+    (h : masks tbl sats sigs = .ok (some (satMask, sigMask, cellMask, cellLen))) :
+    (∀ s, 1 ≤ s → s ≤ 64 → (satMask.testBit (64 - s) = true ↔ ∃ r ∈ sats, r.id = s)) ∧ satMask < 2 ^ 64 :=
+  have S := masks_spec tbl hT sats sigs P _ _ _ _ h
+  ⟨S.sat_bits, S.sat_lt⟩
+
+/-- signal mask: exactly the bits of the signals' identifiers (most significant bit of the 32 is 1) -/
+theorem sig_mask_bits (tbl : SigTable) (hT : C18.tableOk tbl = true) (sats : List SatRow) (sigs : List SigRow)
+    (P : Pre tbl sats sigs) (satMask sigMask cellMask cellLen : Nat)
+    (h : masks tbl sats sigs = .ok (some (satMask, sigMask, cellMask, cellLen))) :
+    (∀ i, 1 ≤ i → i ≤ 32 →
+      (sigMask.testBit (32 - i) = true ↔ ∃ g ∈ sigs, Sig.toId tbl g.band g.attr = some i)) ∧
+    sigMask < 2 ^ 32 :=
+  have S := masks_spec tbl hT sats sigs P _ _ _ _ h
+  ⟨S.sig_bits, S.sig_lt⟩
+
+/-- the cell mask has `|S| * |G|` bits, 1..=64, which is also what the decoder recomputes from the masks -/
+theorem cell_len (tbl : SigTable) (hT : C18.tableOk tbl = true) (sats : List SatRow) (sigs : List SigRow)
+    (P : Pre tbl sats sigs) (satMask sigMask cellMask cellLen : Nat)
+    (h : masks tbl sats sigs = .ok (some (satMask, sigMask, cellMask, cellLen))) :
+    cellLen = sats.length * (sigIdSet tbl sigs).length ∧
+    cellLen = popcount 64 satMask * popcount 32 sigMask ∧
+    1 ≤ cellLen ∧ cellLen ≤ 64 ∧ cellMask < 2 ^ cellLen := by
+  have S := masks_spec tbl hT sats sigs P _ _ _ _ h
+  exact ⟨S.cellLen_eq, by rw [S.popcount_sat, S.popcount_sig]; exact S.cellLen_eq, S.cellLen_pos,
+    S.cellLen_le, S.cell_lt⟩
+
+/-- cell mask: for satellite `s ∈ S` of rank `a` and identifier `i ∈ G` of rank `b`, bit `a * |G| + b`
+counted from the most significant of the `cellLen` bits is set exactly when `(s, i)` is a listed cell;
+`a`, `b` are the indices the encoder derives from the two masks (`rankOf`). -/
+theorem cell_mask_incidence (tbl : SigTable) (hT : C18.tableOk tbl = true) (sats : List SatRow)
+    (sigs : List SigRow) (P : Pre tbl sats sigs) (satMask sigMask cellMask cellLen : Nat)
+    (h : masks tbl sats sigs = .ok (some (satMask, sigMask, cellMask, cellLen)))
+    (s i : Nat) (hs : ∃ r ∈ sats, r.id = s) (hi : i ∈ sigIdSet tbl sigs) :
+    rankOf 64 satMask s = rankIn (sats.map (·.id)) s ∧ rankIn (sats.map (·.id)) s < sats.length ∧
+    rankOf 32 sigMask i = rankIn (sigIdSet tbl sigs) i ∧
+    rankIn (sigIdSet tbl sigs) i < (sigIdSet tbl sigs).length ∧
+    (cellMask.testBit (cellLen - 1 -
+        (rankIn (sats.map (·.id)) s * (sigIdSet tbl sigs).length + rankIn (sigIdSet tbl sigs) i)) = true ↔
+      ∃ g ∈ sigs, g.sat = s ∧ Sig.toId tbl g.band g.attr = some i) := by
+  have S := masks_spec tbl hT sats sigs P _ _ _ _ h
+  obtain ⟨r, hr, rfl⟩ := hs
+  exact ⟨(S.sat_rank r hr).1, (S.sat_rank r hr).2, (S.sig_rank i hi).1, (S.sig_rank i hi).2,
+    S.cell_bits r.id i ⟨r, hr, rfl⟩ hi⟩
+
+/-! ## 2. Order independence -/
+
+/-- **perm_invariant**: the masks depend only on the sets of rows, not on the order the caller listed them -/
+theorem perm_invariant (tbl : SigTable) (hT : C18.tableOk tbl = true) (sats sats' : List SatRow)
+    (sigs sigs' : List SigRow) (P : Pre tbl sats sigs) (hs : sats'.Perm sats) (hg : sigs'.Perm sigs) :
+    masks tbl sats' sigs' = masks tbl sats sigs :=
+  masks_perm tbl (tableOk_of_bool tbl hT) sats sats' sigs sigs' P hs hg
+
+/-- the preconditions themselves do not depend on the order -/
+theorem pre_perm (tbl : SigTable) (sats sats' : List SatRow) (sigs sigs' : List SigRow)
+    (P : Pre tbl sats sigs) (hs : sats'.Perm sats) (hg : sigs'.Perm sigs) : Pre tbl sats' sigs' :=
+  P.perm hs hg
+
+/-- the sorted rows written after the masks are the same for every listing order -/
+theorem sorted_rows_perm_invariant (tbl : SigTable) (hT : C18.tableOk tbl = true) (sats sats' : List SatRow)
+    (sigs sigs' : List SigRow) (P : Pre tbl sats sigs) (hs : sats'.Perm sats) (hg : sigs'.Perm sigs) :
+    Sig.sortBy (fun a b : SatRow => a.id ≤ b.id) sats' = Sig.sortBy (fun a b : SatRow => a.id ≤ b.id) sats ∧
+    Sig.sortBy (sigLe tbl) sigs' = Sig.sortBy (sigLe tbl) sigs :=
+  ⟨sats_sort_perm sats sats' P.sat_distinct hs,
+   sigs_sort_perm tbl (tableOk_of_bool tbl hT) sigs sigs' P.cell_distinct hg⟩
+
+/-- **encode_perm_invariant**: the whole data segment is encoded identically for every listing order -/
+theorem encode_perm_invariant (cfg : Cfg) (tbl : SigTable) (hT : C18.tableOk tbl = true)
+    (satFields sigFields : List (String × DfSpec)) (sats sats' : List SatRow) (sigs sigs' : List SigRow)
+    (P : Pre tbl sats sigs) (hs : sats'.Perm sats) (hg : sigs'.Perm sigs) (c : Cur) :
+    Msm.encode cfg tbl satFields sigFields sats' sigs' c = Msm.encode cfg tbl satFields sigFields sats sigs c := by
+  have h := sorted_rows_perm_invariant tbl hT sats sats' sigs sigs' P hs hg
+  unfold Msm.encode
+  rw [perm_invariant tbl hT sats sats' sigs sigs' P hs hg, h.1, h.2]
+
+/-! ## 3. Row order -/
+
+/-- **rows_sorted**: the rows `encode` writes are a rearrangement of the caller's rows in ascending
+satellite order, resp. ascending (satellite, signal identifier) order — strictly, so without ties. -/
+theorem rows_sorted (tbl : SigTable) (hT : C18.tableOk tbl = true) (sats : List SatRow) (sigs : List SigRow)
+    (P : Pre tbl sats sigs) :
+    (Sig.sortBy (fun a b : SatRow => a.id ≤ b.id) sats).Perm sats ∧
+    (Sig.sortBy (fun a b : SatRow => a.id ≤ b.id) sats).Pairwise (fun a b => a.id < b.id) ∧
+    (Sig.sortBy (sigLe tbl) sigs).Perm sigs ∧
+    (Sig.sortBy (sigLe tbl) sigs).Pairwise
+      (fun a b => a.sat < b.sat ∨ (a.sat = b.sat ∧ sigIdOf tbl a < sigIdOf tbl b)) :=
+  ⟨sortBy_perm _ sats, sats_sorted_strict sats P.sat_distinct, sortBy_perm _ sigs,
+   sigs_sorted_strict tbl (tableOk_of_bool tbl hT).ids_nodup sigs P.sig_known P.cell_distinct⟩
+
+/-- the sort is unambiguous: *any* rearrangement of the rows that is ascending for the comparison the Rust
+code passes to `sort_unstable_by` is the list `Sig.sortBy` returns (keys are distinct under `Pre`), so modelling
+the unstable sort by an insertion sort loses nothing -/
+theorem sorted_rows_unique (tbl : SigTable) (hT : C18.tableOk tbl = true) (sats : List SatRow)
+    (sigs : List SigRow) (P : Pre tbl sats sigs) :
+    (∀ s : List SatRow, s.Perm sats → s.Pairwise (fun a b => a.id ≤ b.id) →
+      Sig.sortBy (fun a b : SatRow => a.id ≤ b.id) sats = s) ∧
+    (∀ s : List SigRow, s.Perm sigs → s.Pairwise (fun a b => sigLe tbl a b = true) →
+      Sig.sortBy (sigLe tbl) sigs = s) := by
+  have hT' := tableOk_of_bool tbl hT
+  constructor
+  · intro s hp hs
+    apply sortBy_unique satLe satLe_total satLe_trans sats s hp
+    · exact hs.imp (fun h => by simpa [satLe] using h)
+    · intro a ha b hb h1 h2
+      simp only [satLe, decide_eq_true_eq] at h1 h2
+      exact List.inj_on_of_nodup_map P.sat_distinct ha hb (by omega)
+  · intro s hp hs
+    apply sortBy_unique (sigLe tbl) (sigLe_total tbl hT'.ids_nodup) (sigLe_trans tbl hT'.ids_nodup) sigs s hp hs
+    intro a ha b hb h1 h2
+    exact List.inj_on_of_nodup_map P.cell_distinct ha hb (sigLe_antisymm_key tbl hT'.ids_nodup a b h1 h2)
+
+/-- `sigIdOf` is the row's signal identifier -/
+theorem sigIdOf_spec (tbl : SigTable) (g : SigRow) (i : Nat) (h : Sig.toId tbl g.band g.attr = some i) :
+    sigIdOf tbl g = i := sigIdOf_eq tbl g i h
+
+/-! ## 4. Rejections, in the order in which the encoder tests
+
+Each theorem assumes that no earlier test fired. `pre ++ r :: post` singles out the first offending row. -/
+
+/-- a satellite row with identifier 0 or above 64, all earlier rows being in range and distinct -/
+theorem err_invalid_satellite (tbl : SigTable) (pre post : List SatRow) (r : SatRow) (sigs : List SigRow)
+    (hpre : ∀ x ∈ pre, 1 ≤ x.id ∧ x.id ≤ 64) (hnd : (pre.map (·.id)).Nodup)
+    (hr : r.id = 0 ∨ 64 < r.id) :
+    masks tbl (pre ++ r :: post) sigs = .err .invalidSatelliteId :=
+  masks_sat_err tbl _ sigs _ (satFold_invalid pre post r hpre hnd (by unfold SatIn; omega))
+
+/-- a satellite row repeating an earlier identifier -/
+theorem err_duplicate_satellite (tbl : SigTable) (pre post : List SatRow) (r : SatRow) (sigs : List SigRow)
+    (hpre : ∀ x ∈ pre, 1 ≤ x.id ∧ x.id ≤ 64) (hnd : (pre.map (·.id)).Nodup)
+    (hr : 1 ≤ r.id ∧ r.id ≤ 64) (hdup : ∃ x ∈ pre, x.id = r.id) :
+    masks tbl (pre ++ r :: post) sigs = .err .duplicateSatellite :=
+  masks_sat_err tbl _ sigs _ (satFold_dup pre post r hpre hnd hr (by
+    obtain ⟨x, hx, e⟩ := hdup; exact List.mem_map.mpr ⟨x, hx, e⟩))
+
+/-- satellite rows fine; a signal row whose satellite is 0 or above 64, earlier signal rows being fine -/
+theorem err_signal_row_invalid_satellite (tbl : SigTable) (hT : C18.tableOk tbl = true) (sats : List SatRow)
+    (pre post : List SigRow) (g : SigRow)
+    (hs : ∀ r ∈ sats, 1 ≤ r.id ∧ r.id ≤ 64) (hsd : (sats.map (·.id)).Nodup)
+    (hpre : ∀ x ∈ pre, (1 ≤ x.sat ∧ x.sat ≤ 64) ∧ ∃ i, Sig.toId tbl x.band x.attr = some i)
+    (hg : g.sat = 0 ∨ 64 < g.sat) :
+    masks tbl sats (pre ++ g :: post) = .err .invalidSatelliteId :=
+  masks_sig_err tbl sats _ _ _ (satFold_good sats hs hsd)
+    (sigFold_invalid tbl (tableOk_of_bool tbl hT) pre post g _ hpre (by unfold SigIn; omega))
+
+/-- satellite rows fine; a signal row with an unrecognised signal, earlier signal rows being fine -/
+theorem err_unrecognised_signal (tbl : SigTable) (hT : C18.tableOk tbl = true) (sats : List SatRow)
+    (pre post : List SigRow) (g : SigRow)
+    (hs : ∀ r ∈ sats, 1 ≤ r.id ∧ r.id ≤ 64) (hsd : (sats.map (·.id)).Nodup)
+    (hpre : ∀ x ∈ pre, (1 ≤ x.sat ∧ x.sat ≤ 64) ∧ ∃ i, Sig.toId tbl x.band x.attr = some i)
+    (hg : 1 ≤ g.sat ∧ g.sat ≤ 64) (hu : Sig.toId tbl g.band g.attr = none) :
+    masks tbl sats (pre ++ g :: post) = .err .invalidSignalId :=
+  masks_sig_err tbl sats _ _ _ (satFold_good sats hs hsd)
+    (sigFold_unknown tbl (tableOk_of_bool tbl hT) pre post g _ hpre hg hu)
+
+/-- all rows individually fine, but the satellites of the satellite rows and of the signal rows differ -/
+theorem err_satellite_mismatch (tbl : SigTable) (hT : C18.tableOk tbl = true) (sats : List SatRow)
+    (sigs : List SigRow)
+    (hs : ∀ r ∈ sats, 1 ≤ r.id ∧ r.id ≤ 64) (hsd : (sats.map (·.id)).Nodup)
+    (hg : ∀ x ∈ sigs, (1 ≤ x.sat ∧ x.sat ≤ 64) ∧ ∃ i, Sig.toId tbl x.band x.attr = some i)
+    (hne : sats ≠ [] ∨ sigs ≠ [])
+    (hmis : (∃ r ∈ sats, ∀ g ∈ sigs, g.sat ≠ r.id) ∨ (∃ g ∈ sigs, ∀ r ∈ sats, r.id ≠ g.sat)) :
+    masks tbl sats sigs = .err .satelliteMismatch := by
+  apply masks_mismatch tbl (tableOk_of_bool tbl hT) sats sigs ⟨hs, hsd⟩ hg hne
+  rintro ⟨h1, h2⟩
+  rcases hmis with ⟨r, hr, h⟩ | ⟨g, hg', h⟩
+  · obtain ⟨g, hg', e⟩ := h1 r hr; exact h g hg' e
+  · obtain ⟨r, hr, e⟩ := h2 g hg'; exact h r hr e
+
+/-- rows fine and consistent, but more than 64 mask cells -/
+theorem err_too_many_cells (tbl : SigTable) (hT : C18.tableOk tbl = true) (sats : List SatRow)
+    (sigs : List SigRow)
+    (hs : ∀ r ∈ sats, 1 ≤ r.id ∧ r.id ≤ 64) (hsd : (sats.map (·.id)).Nodup)
+    (hg : ∀ x ∈ sigs, (1 ≤ x.sat ∧ x.sat ≤ 64) ∧ ∃ i, Sig.toId tbl x.band x.attr = some i)
+    (h1 : ∀ r ∈ sats, ∃ g ∈ sigs, g.sat = r.id) (h2 : ∀ g ∈ sigs, ∃ r ∈ sats, r.id = g.sat)
+    (hne : sats ≠ []) (hlen : 64 < sats.length * (sigIdSet tbl sigs).length) :
+    masks tbl sats sigs = .err .invalidSatelliteSignalCount :=
+  masks_too_many tbl (tableOk_of_bool tbl hT) sats sigs ⟨hs, hsd, hg, h1, h2, hne⟩ hlen
+
+/-- rows fine and consistent, at most 64 mask cells, but a cell listed twice -/
+theorem err_duplicate_cell (tbl : SigTable) (hT : C18.tableOk tbl = true) (sats : List SatRow)
+    (sigs : List SigRow)
+    (hs : ∀ r ∈ sats, 1 ≤ r.id ∧ r.id ≤ 64) (hsd : (sats.map (·.id)).Nodup)
+    (hg : ∀ x ∈ sigs, (1 ≤ x.sat ∧ x.sat ≤ 64) ∧ ∃ i, Sig.toId tbl x.band x.attr = some i)
+    (h1 : ∀ r ∈ sats, ∃ g ∈ sigs, g.sat = r.id) (h2 : ∀ g ∈ sigs, ∃ r ∈ sats, r.id = g.sat)
+    (hne : sats ≠ []) (hlen : sats.length * (sigIdSet tbl sigs).length ≤ 64)
+    (hdup : ¬ (sigs.map fun g => (g.sat, g.band, g.attr)).Nodup) :
+    masks tbl sats sigs = .err .duplicateSatelliteSignal := by
+  obtain ⟨pre, g, post, e, hp, hd⟩ := exists_first_dup_map _ sigs hdup
+  exact masks_dup_cell tbl (tableOk_of_bool tbl hT) sats sigs ⟨hs, hsd, hg, h1, h2, hne⟩ hlen pre post g e hp hd
+
+/-- **Complete decision list.** Exactly one of: both lists empty (nothing to compute); the preconditions
+hold and the masks are produced; the preconditions fail and one of the six MSM errors is reported.
+In particular `masks` never panics for a table with identifiers within 2..=32. -/
+theorem masks_classification (tbl : SigTable) (hT : C18.tableOk tbl = true) (sats : List SatRow)
+    (sigs : List SigRow) :
+    (sats = [] ∧ sigs = [] ∧ masks tbl sats sigs = .ok none) ∨
+    (Pre tbl sats sigs ∧ ∃ v, masks tbl sats sigs = .ok (some v)) ∨
+    (¬ Pre tbl sats sigs ∧ ¬ (sats = [] ∧ sigs = []) ∧
+      ∃ e ∈ [RtcmError.invalidSatelliteId, .duplicateSatellite, .invalidSignalId, .satelliteMismatch,
+             .invalidSatelliteSignalCount, .duplicateSatelliteSignal], masks tbl sats sigs = .err e) := by
+  rcases masks_classify tbl (tableOk_of_bool tbl hT) sats sigs with h | ⟨P, h⟩ | h
+  · exact Or.inl h
+  · exact Or.inr (Or.inl ⟨P, _, h⟩)
+  · exact Or.inr (Or.inr h)
+
+/-- masks are produced exactly for inputs satisfying the preconditions -/
+theorem masks_ok_iff_pre (tbl : SigTable) (hT : C18.tableOk tbl = true) (sats : List SatRow)
+    (sigs : List SigRow) : (∃ v, masks tbl sats sigs = .ok (some v)) ↔ Pre tbl sats sigs := by
+  constructor
+  · rintro ⟨v, hv⟩
+    rcases masks_classification tbl hT sats sigs with ⟨_, _, h⟩ | ⟨P, _⟩ | ⟨_, _, e, _, h⟩
+    · rw [h] at hv; injection hv with hv; cases hv
+    · exact P
+    · rw [h] at hv; cases hv
+  · intro P
+    exact ⟨_, masks_pre tbl (tableOk_of_bool tbl hT) sats sigs P⟩
+
+/-- inputs that break the preconditions are rejected instead of being encoded: `encode` returns the error
+of `masks` without writing anything -/
+theorem encode_rejects (cfg : Cfg) (tbl : SigTable) (satFields sigFields : List (String × DfSpec))
+    (sats : List SatRow) (sigs : List SigRow) (c : Cur) (e : RtcmError)
+    (h : masks tbl sats sigs = .err e) :
+    Msm.encode cfg tbl satFields sigFields sats sigs c = .err e := by
+  unfold Msm.encode; rw [h]
+
+/-! ## 5. Decode side -/
+
+/-- `mask_to_id_vec_*`: the identifiers of the set bits, strictly ascending, each within `1..=bits`, as many
+as `mask_len_*` counts -/
+theorem mask_ids_sorted (bits m : Nat) :
+    (maskIds bits m).Pairwise (· < ·) ∧
+    (∀ s, s ∈ maskIds bits m ↔ 1 ≤ s ∧ s ≤ bits ∧ m.testBit (bits - s) = true) ∧
+    (maskIds bits m).length = popcount bits m :=
+  ⟨maskIds_sorted bits m, mem_maskIds bits m, maskIds_length bits m⟩
+
+/-- `cell_mask_id_vec`: the cells come out in strictly ascending (satellite, identifier) order — hence without
+duplicates — and only combine satellites of the satellite mask with identifiers of the signal mask -/
+theorem cell_ids_sorted (satMask sigMask cellMask : Nat) :
+    (cellIds (maskIds 64 satMask) (maskIds 32 sigMask) cellMask).Pairwise
+      (fun a b => a.1 < b.1 ∨ (a.1 = b.1 ∧ a.2 < b.2)) ∧
+    (cellIds (maskIds 64 satMask) (maskIds 32 sigMask) cellMask).Nodup ∧
+    ∀ c ∈ cellIds (maskIds 64 satMask) (maskIds 32 sigMask) cellMask,
+      c.1 ∈ maskIds 64 satMask ∧ c.2 ∈ maskIds 32 sigMask := by
+  have h : (cellIds (maskIds 64 satMask) (maskIds 32 sigMask) cellMask).Pairwise lexLt :=
+    cellIds_sorted _ _ _ (maskIds_sorted _ _) (maskIds_sorted _ _)
+  refine ⟨h, h.imp ?_, fun c hc => cellIds_mem_prod _ _ _ c hc⟩
+  rintro a b hab rfl
+  unfold lexLt at hab; omega
+
+/-- **decode_returns_sorted_sets**: a successful `decode` either read two zero masks (empty segment) or
+* checked `1 ≤ satLen * sigLen ≤ 64` before reading the cell mask with exactly that length (so the bit
+  reader is never asked for 0 or more than 64 bits),
+* returns the satellites of the satellite mask, strictly ascending, each within 1..=64,
+* returns one signal row per set cell, in strictly ascending (satellite, identifier) order, whose
+  satellite is the cell's and whose `(band, attr)` is the table's signal for the cell's identifier. -/
+theorem decode_returns_sorted_sets (cfg : Cfg) (tbl : SigTable) (satFields sigFields : List (String × DfSpec))
+    (c c' : Cur) (sats : List SatRow) (sigs : List SigRow)
+    (h : Msm.decode cfg tbl satFields sigFields c = .ok (sats, sigs, c')) :
+    ∃ satMask c1 sigMask c2,
+      Text.parseU cfg 64 64 c = .ok (satMask, c1) ∧ Text.parseU cfg 32 32 c1 = .ok (sigMask, c2) ∧
+      ((satMask = 0 ∧ sigMask = 0 ∧ sats = [] ∧ sigs = [] ∧ c' = c2) ∨
+       (¬ (satMask = 0 ∧ sigMask = 0) ∧
+        1 ≤ popcount 64 satMask * popcount 32 sigMask ∧ popcount 64 satMask * popcount 32 sigMask ≤ 64 ∧
+        ∃ cellMask c3,
+          Text.parseU cfg 64 (popcount 64 satMask * popcount 32 sigMask) c2 = .ok (cellMask, c3) ∧
+          sats.map (·.id) = maskIds 64 satMask ∧
+          (sats.map (·.id)).Pairwise (· < ·) ∧
+          (∀ r ∈ sats, 1 ≤ r.id ∧ r.id ≤ 64) ∧
+          sats.length = popcount 64 satMask ∧
+          List.Forall₂ (fun cell g => g.sat = cell.1 ∧ Sig.toSig tbl cell.2 = some (g.band, g.attr))
+            (cellIds (maskIds 64 satMask) (maskIds 32 sigMask) cellMask) sigs ∧
+          (cellIds (maskIds 64 satMask) (maskIds 32 sigMask) cellMask).Pairwise
+            (fun a b => a.1 < b.1 ∨ (a.1 = b.1 ∧ a.2 < b.2)))) := by
+  obtain ⟨satMask, c1, sigMask, c2, h1, h2, h3⟩ := decode_ok_shape cfg tbl satFields sigFields c c' sats sigs h
+  refine ⟨satMask, c1, sigMask, c2, h1, h2, ?_⟩
+  rcases h3 with h3 | ⟨hz, hlo, hhi, cellMask, c3, h4, h5, h6⟩
+  · exact Or.inl h3
+  · right
+    refine ⟨hz, hlo, hhi, cellMask, c3, h4, h5, ?_, ?_, ?_, ?_, (cell_ids_sorted satMask sigMask cellMask).1⟩
+    · rw [h5]; exact maskIds_sorted _ _
+    · intro r hr
+      have : r.id ∈ maskIds 64 satMask := by rw [← h5]; exact List.mem_map.mpr ⟨r, hr, rfl⟩
+      have := (mem_maskIds 64 satMask r.id).mp this
+      exact ⟨this.1, this.2.1⟩
+    · rw [← maskIds_length, ← h5, List.length_map]
+    · have := lookupSigs_ok tbl _ _ h6
+      rw [List.forall₂_map_right_iff] at this
+      exact this
+
+/-- a mask pair announcing no cell or more than 64 cells is rejected before the cell mask is read -/
+theorem decode_rejects_bad_count (cfg : Cfg) (tbl : SigTable) (satFields sigFields : List (String × DfSpec))
+    (c c1 c2 : Cur) (satMask sigMask : Nat)
+    (h1 : Text.parseU cfg 64 64 c = .ok (satMask, c1)) (h2 : Text.parseU cfg 32 32 c1 = .ok (sigMask, c2))
+    (hz : ¬ (satMask = 0 ∧ sigMask = 0))
+    (hbad : popcount 64 satMask * popcount 32 sigMask > 64 ∨ popcount 64 satMask * popcount 32 sigMask = 0) :
+    Msm.decode cfg tbl satFields sigFields c = .err .invalidSatelliteSignalCount := by
+  unfold Msm.decode
+  rw [h1]; simp only []; rw [h2]; simp only []
+  rw [if_neg hz, if_pos hbad]
+
+/-- **decode inverts the masks**: from the masks computed by the encoder, the decoder's `mask_len_*`,
+`mask_to_id_vec_*`, `cell_mask_id_vec` and `to_sig` recover the satellites in ascending order, the set `G`,
+the cell-mask length, and the cells in ascending (satellite, identifier) order — i.e. exactly the keys of the
+rows in the order in which `encode` wrote them. -/
+theorem decode_inverts_masks (tbl : SigTable) (hT : C18.tableOk tbl = true) (sats : List SatRow)
+    (sigs : List SigRow) (P : Pre tbl sats sigs) (satMask sigMask cellMask cellLen : Nat)
+    (h : masks tbl sats sigs = .ok (some (satMask, sigMask, cellMask, cellLen))) :
+    ¬ (satMask = 0 ∧ sigMask = 0) ∧
+    popcount 64 satMask * popcount 32 sigMask = cellLen ∧
+    maskIds 64 satMask = (Sig.sortBy (fun a b : SatRow => a.id ≤ b.id) sats).map (·.id) ∧
+    maskIds 32 sigMask = sigIdSet tbl sigs ∧
+    cellIds (maskIds 64 satMask) (maskIds 32 sigMask) cellMask =
+      (Sig.sortBy (sigLe tbl) sigs).map (fun g => (g.sat, sigIdOf tbl g)) ∧
+    lookupSigs tbl (cellIds (maskIds 64 satMask) (maskIds 32 sigMask) cellMask) =
+      .ok ((Sig.sortBy (sigLe tbl) sigs).map fun g => (g.sat, g.band, g.attr)) := by
+  have hT' := tableOk_of_bool tbl hT
+  have S := masks_spec tbl hT sats sigs P _ _ _ _ h
+  rw [masks_pre tbl hT' sats sigs P] at h
+  injection h with h; injection h with h
+  simp only [Prod.mk.injEq] at h
+  obtain ⟨rfl, rfl, rfl, rfl⟩ := h
+  have hc := P.cellIds_eq hT'
+  refine ⟨?_, ?_, P.good.maskIds_sat, P.good.maskIds_sig hT', hc, ?_⟩
+  · rintro ⟨h0, _⟩
+    have hp := S.popcount_sat
+    rw [h0] at hp
+    have hpos : 1 ≤ sats.length := List.length_pos_iff.mpr P.nonempty
+    have : popcount 64 0 = 0 := by decide
+    omega
+  · rw [S.popcount_sat, S.popcount_sig, Nat.mul_comm]
+  · rw [hc]
+    apply lookupSigs_sorted tbl hT'.ids_nodup
+    intro g hg
+    exact P.sig_known g ((sortBy_perm _ sigs).mem_iff.mp hg)
+
+/-- **encode → decode returns the same sets in sorted order**: if `decode` reads back the three masks that
+`masks` computed for `(sats, sigs)` (the bit-level put/parse round trip is C07), then the satellites it returns
+are those of `sats` in ascending order and the signal rows' `(satellite, band, attr)` are those of `sigs` in
+ascending (satellite, identifier) order — whatever order the caller listed them in. -/
+theorem decode_of_encoded_masks (cfg : Cfg) (tbl : SigTable) (hT : C18.tableOk tbl = true)
+    (satFields sigFields : List (String × DfSpec)) (sats : List SatRow) (sigs : List SigRow)
+    (P : Pre tbl sats sigs) (satMask sigMask cellMask cellLen : Nat)
+    (hm : masks tbl sats sigs = .ok (some (satMask, sigMask, cellMask, cellLen)))
+    (c c1 c2 c3 c' : Cur) (sats' : List SatRow) (sigs' : List SigRow)
+    (h1 : Text.parseU cfg 64 64 c = .ok (satMask, c1)) (h2 : Text.parseU cfg 32 32 c1 = .ok (sigMask, c2))
+    (h3 : Text.parseU cfg 64 cellLen c2 = .ok (cellMask, c3))
+    (hd : Msm.decode cfg tbl satFields sigFields c = .ok (sats', sigs', c')) :
+    sats'.map (·.id) = (Sig.sortBy (fun a b : SatRow => a.id ≤ b.id) sats).map (·.id) ∧
+    (sigs'.map fun g => (g.sat, g.band, g.attr)) =
+      (Sig.sortBy (sigLe tbl) sigs).map fun g => (g.sat, g.band, g.attr) := by
+  obtain ⟨hz, hlen, hS, _, _, hL⟩ := decode_inverts_masks tbl hT sats sigs P _ _ _ _ hm
+  obtain ⟨satMask', c1', sigMask', c2', e1, e2, hcase⟩ :=
+    decode_ok_shape cfg tbl satFields sigFields c c' sats' sigs' hd
+  rw [h1] at e1; injection e1 with e1
+  simp only [Prod.mk.injEq] at e1
+  obtain ⟨rfl, rfl⟩ := e1
+  rw [h2] at e2; injection e2 with e2
+  simp only [Prod.mk.injEq] at e2
+  obtain ⟨rfl, rfl⟩ := e2
+  rcases hcase with ⟨a, b, _⟩ | ⟨_, _, _, cellMask', c3', e3, e4, e5⟩
+  · exact absurd ⟨a, b⟩ hz
+  · rw [hlen, h3] at e3; injection e3 with e3
+    simp only [Prod.mk.injEq] at e3
+    obtain ⟨rfl, rfl⟩ := e3
+    rw [hL] at e5; injection e5 with e5
+    exact ⟨e4.trans hS, e5.symm⟩
+
+/-! ## Non-vacuity: the preconditions hold on a concrete unsorted GPS input -/
+
+def exSats : List SatRow := [⟨5, []⟩, ⟨2, []⟩, ⟨17, []⟩]
+/-- GPS 2W (id 10) and 1C (id 2), cells listed in no particular order; (17, 2W) is absent -/
+def exSigs : List SigRow := [⟨5, 2, 87, []⟩, ⟨2, 1, 67, []⟩, ⟨17, 1, 67, []⟩, ⟨5, 1, 67, []⟩, ⟨2, 2, 87, []⟩]
+
+example : C18.tableOk Gen.sigTable_gps = true := by decide +kernel
+
+/-- executable form of the preconditions -/
+def preB (tbl : SigTable) (sats : List SatRow) (sigs : List SigRow) : Bool :=
+  sats.all (fun r => decide (1 ≤ r.id ∧ r.id ≤ 64)) &&
+  decide (sats.map (·.id)).Nodup &&
+  sigs.all (fun g => decide (1 ≤ g.sat ∧ g.sat ≤ 64)) &&
+  sigs.all (fun g => (Sig.toId tbl g.band g.attr).isSome) &&
+  decide (sigs.map fun g => (g.sat, g.band, g.attr)).Nodup &&
+  sats.all (fun r => sigs.any fun g => g.sat == r.id) &&
+  sigs.all (fun g => sats.any fun r => r.id == g.sat) &&
+  !sats.isEmpty &&
+  decide (sats.length * (sigIdSet tbl sigs).length ≤ 64)
+
+theorem pre_iff_preB (tbl : SigTable) (sats : List SatRow) (sigs : List SigRow) :
+    Pre tbl sats sigs ↔ preB tbl sats sigs = true := by
+  rw [pre_iff]
+  simp only [preB, Bool.and_eq_true, List.all_eq_true, List.any_eq_true, decide_eq_true_eq, beq_iff_eq,
+    Option.isSome_iff_exists, Bool.not_eq_true', List.isEmpty_eq_false_iff, and_assoc]
+
+example : Pre Gen.sigTable_gps exSats exSigs :=
+  (pre_iff_preB _ _ _).mpr (by decide +kernel)
+
+example : sigIdSet Gen.sigTable_gps exSigs = [2, 10] := by decide +kernel
+
+/-- satellites 2, 5, 17 → bits 62, 59, 47; signals 2, 10 → bits 30, 22; six cells `11 11 10` -/
+example : (match masks Gen.sigTable_gps exSats exSigs with
+    | .ok (some v) => v == (2 ^ 62 + 2 ^ 59 + 2 ^ 47, 2 ^ 30 + 2 ^ 22, 0b111110, 6)
+    | _ => false) = true := by decide +kernel
+
+example : (Sig.sortBy (fun a b : SatRow => a.id ≤ b.id) exSats).map (·.id) = [2, 5, 17] := by decide +kernel
+example : (Sig.sortBy (sigLe Gen.sigTable_gps) exSigs).map (fun g => (g.sat, sigIdOf Gen.sigTable_gps g)) =
+    [(2, 2), (2, 10), (5, 2), (5, 10), (17, 2)] := by decide +kernel
+
+/-- the headline statements for each of the seven constellation tables -/
+theorem for_all_constellations : ∀ t ∈ Gen.sigTables, ∀ sats sigs, Pre t.2 sats sigs →
+    ∃ satMask sigMask cellMask cellLen,
+      masks t.2 sats sigs = .ok (some (satMask, sigMask, cellMask, cellLen)) ∧
+      MaskSpec t.2 sats sigs satMask sigMask cellMask cellLen := by
+  intro t ht sats sigs P
+  have h := C18.tables_ok
+  rw [List.all_eq_true] at h
+  exact masks_ok t.2 (h t ht) sats sigs P
 
 end Rtcm.C10
